@@ -46,7 +46,19 @@ def check_declared_width(prog: Program, res: Result, rule: str) -> None:
     q_ok = len(qrets) == 1 and isinstance(qrets[0].value, ast.Call) and isinstance(qrets[0].value.func, ast.Attribute) \
         and qrets[0].value.func.attr == "astype" and qrets[0].value.args and norm(qrets[0].value.args[0]) == "self.dtype"
     p = prog.func("sigpyproc.io.bits", "pack")
-    pack_refuses = any(isinstance(s, ast.If) and always_raises(s.body) and "dtype != np.uint8" in norm(s.test) for s in body_walk(p.node))
+    from ..pathcond import path_conditions as _pcx, rejection as _rej
+    pcp = _pcx(flow_of(p))
+
+    def _is_u8(e, pol):
+        if not (isinstance(e, ast.Compare) and len(e.ops) == 1):
+            return False
+        sides = {norm(e.left), norm(e.comparators[0])}
+        if not (any(x.endswith(".dtype") for x in sides) and sides & {"np.uint8", "'uint8'", "np.dtype('uint8')"}):
+            return False
+        return (isinstance(e.ops[0], ast.Eq) and pol) or (isinstance(e.ops[0], ast.NotEq) and not pol)
+
+    p_rets = [s for s in body_walk(p.node) if isinstance(s, ast.Return) and s.value is not None]
+    pack_refuses = bool(p_rets) and all((f_ := pcp.truth(r_, _is_u8)) is not None and _rej(pcp, f_) is not None for r_ in p_rets)
     params = [x for x in cw.params if x != "self"]
     for t in tofiles:
         recv = t.func.value
@@ -198,7 +210,8 @@ def run(prog: Program, res: Result, tier: str) -> None:
     check_bitorder_pairing(prog, res, "R6")
 
     hd = prog.func(HEADER, "Header.dtype")
-    ok = "return BitsInfo(self.nbits).dtype" in norm(hd.node)
+    from ..normalform import canon as _canon, returned as _returned
+    ok = _returned(hd) == [_canon("BitsInfo(self.nbits).dtype")]
     (res.ok if ok else res.bad)("R2", hd, hd.node, "Header.dtype is the storage dtype of header.nbits (what from_tim reads with)" if ok else
                                 "Header.dtype is no longer BitsInfo(self.nbits).dtype", construct="Header.dtype", key="Header.dtype")
 
